@@ -194,6 +194,7 @@ def probe_columns(f, cols, outs):
 
 
 _budget_z = {}
+_budget_t = {}
 
 
 def direct_probe(f, args, outs):
@@ -203,7 +204,12 @@ def direct_probe(f, args, outs):
         return
     a = [np.asarray(x, float).flatten(order="F") for x in args]
     nz = sum(int(np.sum(x == 0.0)) for x in a)
-    if nz >= 3:
+    tiny = any(np.any((np.abs(x) > 0) & (np.abs(x) <= 1e-5)) for x in a)
+    if tiny and _budget_t.get(id(f), 0) < 8:
+        # components between 0 and 1e-5: an ABSOLUTE pruning tolerance (sparsify(M, 1e-6)) only bites numeric constants
+        _budget_t[id(f)] = _budget_t.get(id(f), 0) + 1
+        _budget[id(f)] = min(_budget.get(id(f), 0), PROBES_PER_FN - 1)
+    elif nz >= 3:
         if _budget_z.get(id(f), 0) >= 8:
             return
         _budget_z[id(f)] = _budget_z.get(id(f), 0) + 1
